@@ -243,6 +243,9 @@ def run(ctx):
 
     total, mism = _judge(ctx, parts, "judge", pool=8)
     ctx.note("judge: %d events, %d non-conforming" % (total, len(mism)))
+    for f in parts:
+        if ".part" in os.path.basename(f):
+            os.remove(f)  # copies of the shard traces (which stay for triage)
     if total != n_events + len(planted) + 1:
         raise vlib.ToolError("judge consumed %d events, expected %d" % (total, n_events + len(planted) + 1))
 
@@ -276,7 +279,13 @@ def run(ctx):
               "jobs_on_synthesized_fonts", "jobs_text_classes_on_repository_fonts"] + ["f_" + k for k in NEEDED_FACTS]
     vac = [k for k in needed if not rep.get(k)]
     if vac:
-        raise vlib.ToolError("vacuous exploration: no event with %s" % vac)
+        # a call that panics returns no run, so a violation can empty a counter: the violation is the
+        # verdict then, and the vacuity of the rest is a tool error only when nothing new was found
+        known = vlib.load_known(ctx.prop)
+        if any(v.key not in known for v in violations):
+            ctx.note("vacuity counters at zero (calls that would feed them did not return): %s" % vac)
+        else:
+            raise vlib.ToolError("vacuous exploration: no event with %s" % vac)
 
     coverage = {
         "evaluations": n_events,
